@@ -1,9 +1,9 @@
 #!/usr/bin/env python3
 """Merge an owner's copy made from commit BASE: force exactly the files the owner changed relative to BASE; report
-conflicts (changed both in /verif since BASE and by the owner). usage: integrate_owner.py <copy> <base-commit>"""
+conflicts (changed both in /verif since BASE and by the owner). usage: integrate_owner.py <copy> <base-commit> [<base-commit> ...]   (a file counts as touched by the owner iff it differs from its version in every base)"""
 import os, subprocess, sys
 V = os.path.dirname(os.path.dirname(os.path.abspath(__file__)))
-src, base = sys.argv[1].rstrip("/"), sys.argv[2]
+src, bases = sys.argv[1].rstrip("/"), sys.argv[2:]
 out = subprocess.run([os.path.join(V, "tools/integrate.py"), src], stdout=subprocess.PIPE, text=True).stdout
 print(out)
 differ = []
@@ -13,12 +13,12 @@ force, conflicts = [], []
 for rel in differ:
     if rel.startswith("tools/") or rel in ("harness/core.py",):
         continue
-    b = subprocess.run(["git", "-C", V, "show", f"{base}:{rel}"], stdout=subprocess.PIPE).stdout
+    bs = [subprocess.run(["git", "-C", V, "show", f"{b}:{rel}"], stdout=subprocess.PIPE).stdout for b in bases]
     o = open(os.path.join(src, rel), "rb").read()
     c = open(os.path.join(V, rel), "rb").read()
-    if o == b:
-        continue            # owner did not touch it
-    if c != b:
+    if o in bs:
+        continue            # owner did not touch it since one of the bases
+    if c not in bs:
         conflicts.append(rel)
     else:
         force.append(rel)
